@@ -337,6 +337,8 @@ func (gg genGrant) words() string {
 }
 
 func genState(g *GenCtx) {
+	g.R = NewRng(g.R.U64() + uint64(g.Part)*0x9E3779B97F4A7C15) // parts draw different random cases
+
 	// fixed cases first: the boundary clocks around start and expiry of a single command grant
 	g.Op("new")
 	g.Op("grant 2 1000 2000 %s 1 %s", HexOrDash([]byte("u")), HexOrDash([]byte("ls")))
